@@ -43,6 +43,7 @@ def shards(tier, seed):
     step = 4 if tier == 'quick' else 2
     for i in range(0, nm, step):
         out.append({'shard': 'mx%d' % i, 'mode': 'matrix', 'tier': tier, 'seed': seed, 'first': i, 'count': step})
+    out += [{'shard': 'inh/%s' % fam, 'mode': 'inheritance', 'family': fam, 'tier': tier, 'seed': seed} for fam in FAMILIES]
     if tier == 'thorough':
         # 16-bit sweep: one shard per (family, signedness) so that it finishes in minutes
         for fam in FAMILIES:
@@ -422,6 +423,44 @@ def run_matrix_leaf(R, spec, rng, li, lt):
                 R.count('matrix_values')
 
 
+def run_inheritance(R, spec):
+    """every slot x every boundary value of the fixed three-level class tree (gen.inheritance_ir), one family per shard"""
+    ir = gen.inheritance_ir(uid=9200)
+    for sd in ir['services']:
+        sd['methods'] = [m for m in sd['methods'] if m['style'] == 'wrapped']
+    rng = core.rng_for(spec['seed'], PROP, spec['shard'])
+    F = Family(ir, spec['family'], rng)
+    for md in ir['services'][0]['methods']:
+        for rep in range(1 if spec['tier'] == 'quick' else 3):
+            args = [refval.dense_value(rng, ir, t) for _, t in md['args']]
+            if any(a is None for a in args) or refval.check_call(ir, md, args):
+                continue
+            for ai, ((an, at), av) in enumerate(zip(md['args'], args)):
+                for path, lt, pos in refval.slots(ir, at, av, (), 'top'):
+                    for val, label in refval.boundary_values(rng, lt):
+                        if isinstance(val, tuple) and val and val[0] == 'COUNT':
+                            cur = av
+                            for k in path:
+                                cur = cur[k]
+                            if not cur:
+                                continue
+                            val = [cur[i % len(cur)] for i in range(val[1])]
+                        if val is refval.NIL and pos == 'attribute':
+                            continue
+                        mutated = list(args)
+                        try:
+                            mutated[ai] = refval.set_at(av, path, val)
+                        except (KeyError, IndexError, TypeError):
+                            continue
+                        if not F.expressible(md, mutated, pos, val):
+                            R.skip('%s cannot express this facet' % F.fam)
+                            continue
+                        slot = '%s%s' % (an, ''.join('[%r]' % (p,) for p in path))
+                        judge(R, F, md, mutated, pos, label, lt, {'seed': spec['seed'], 'uid': ir['uid'], 'method': md['name'], 'slot': slot,
+                                                                   'family_shard': spec['family']})
+                        R.count('inheritance_values')
+
+
 def json_copy(v):
     if isinstance(v, dict):
         return {k: json_copy(x) for k, x in v.items()}
@@ -433,6 +472,10 @@ def json_copy(v):
 def run(spec, R):
     if spec['mode'] == 'exhaustive':
         run_exhaustive(R, spec)
+        return
+    if spec['mode'] == 'inheritance':
+        R.count('exhaustive_values', 0)
+        run_inheritance(R, spec)
         return
     if spec['mode'] == 'matrix':
         R.count('exhaustive_values', 0)
@@ -449,7 +492,9 @@ def post_merge(total, tier, seed):
 
 def replay(v, R):
     c = v['repro']
-    if c.get('uid', 0) >= 7000:
+    if c.get('uid', 0) == 9200:
+        run_inheritance(R, {'seed': c['seed'], 'shard': 'inh/%s' % c['family'], 'family': c['family'], 'tier': 'thorough', 'mode': 'inheritance'})
+    elif c.get('uid', 0) >= 7000:
         run_matrix(R, {'seed': c['seed'], 'shard': 'mx%d' % (c['uid'] - 7000), 'tier': 'thorough', 'first': c['uid'] - 7000, 'count': 1})
     elif c.get('uid', 0) >= 5000:
         run_exhaustive(R, {'bits': c['uid'] - 5000, 'seed': c['seed'], 'shard': 'exh%d' % (c['uid'] - 5000), 'tier': 'thorough',
